@@ -10,6 +10,6 @@ open Hera
 #print axioms C05_decode_sound
 #print axioms C05_match_subst
 #print axioms C05_range
-#print axioms C05_decode_encode
-#print axioms C05_encode_injective
-#print axioms C05_encode_lt
+#print axioms Spec.C05_decode_encode
+#print axioms Spec.C05_encode_injective
+#print axioms Spec.C05_encode_lt
